@@ -17,7 +17,7 @@ RULE = ("closed store graph of config tiny (a[2], s, b[1]@0x401/1/1; 2 values pe
         "1..N members over the member alphabet, run bundled and unbundled. non-trivial = distinct (state, list) with >= 2 "
         "members containing a write or a refused member")
 BOUNDS = {
-    "quick": "INT on the object seam: 14-member alphabet, lists of length 1..3 (2954 lists) from all 16 states; SINT (1-byte elements: "
+    "quick": "INT on the object seam: 15-member alphabet (incl. an attribute read of the Identity object), lists of length 1..3 (3615 lists) from all 16 states; SINT (1-byte elements: "
              "odd-length member replies) through whole frames (logix.process): lists of length 1..2",
     "thorough": "INT and REAL on the object seam with the 20-member alphabet, lists of length 1..3 (8420) from 16 states, length 4 "
                 "over an 8-member sub-alphabet; SINT, LINT, SSTRING through whole frames, lists of length 1..3 over 10 members",
@@ -36,6 +36,8 @@ def members(typ, size):
     other = W.DINT if t != W.DINT else W.LINT
     other_v = TS.EDGE["DINT" if t != W.DINT else "LINT"][0]
     A = [
+        ("raw", "Get Attribute Single of Identity product name @1/1/7 (a plain CIP object that is not a tag and does not route)",
+         W.get_attribute_single(W.cia_path(1, 1, 7))),
         ("rd", ("sym", "a", None), 2),
         ("wt", ("sym", "a", None), t, (v[1], v[0]), None),
         ("rd", ("sym", "a", 1), 1),
@@ -68,6 +70,8 @@ def members(typ, size):
 
 
 def encode(m):
+    if m[0] == "raw":
+        return bytes(m[2])
     if m[0] == "nested":
         return W.multiple([encode(x) for x in m[1]])
     return refmodel.encode_request(m)
@@ -104,7 +108,10 @@ def check_list(rig, state, lst):
     for m in lst:
         cip = encode(m)
         rpy, exc = exec_raw(rig, cip)
-        if m[0] != "nested":
+        if m[0] == "raw":
+            if rig.state() != state and not any(x[0] in ("wt", "wf", "sas", "nested") for x in lst):
+                bad.append(("standalone:foreign-request-changed-store", "%s changed the tag store" % (m[1],)))
+        elif m[0] != "nested":
             bad += [("standalone:" + k, msg) for k, msg in rig.model.judge(m, rpy, exc, rig.sim.store())]
         else:
             rig.model.load_observed(rig.sim.store())
@@ -185,9 +192,9 @@ def all_lists(typ, cfgkey):
 
 def run(ctx):
     if ctx.quick:
-        keys = [("INT", "tiny", 2, "cm", False, 14, 3, 0), ("SINT", "tiny", 2, "rr", True, 14, 2, 0)]   # SINT: odd-length replies
+        keys = [("INT", "tiny", 2, "cm", False, 15, 3, 0), ("SINT", "tiny", 2, "rr", True, 15, 2, 0)]   # SINT: odd-length replies
     else:
-        keys = [("INT", "tiny", 2, "cm", False, 20, 3, 4), ("REAL", "tiny", 2, "cm", True, 20, 3, 0),
+        keys = [("INT", "tiny", 2, "cm", False, 21, 3, 4), ("REAL", "tiny", 2, "cm", True, 21, 3, 0),
                 ("USINT", "tiny", 2, "rr", False, 10, 3, 0), ("LINT", "tiny", 2, "rr", True, 10, 3, 0), ("BOOL", "tiny", 2, "cm", False, 14, 3, 0),
                 ("SSTRING", "tiny", 2, "rr", False, 10, 3, 0)]
     roots = []
